@@ -115,6 +115,10 @@ def model_R(ctx, rows, op):
         return "F", "".join(rows[i][op[2]] for i in op[1])
     if k == "it":
         return "C", rows[op[1]][op[2]]
+    if k == "pf":
+        return "F", "".join(rows[i][j] for i, j in zip(op[1], op[2]))
+    if k == "rebuild":
+        return "R", [rows[i] for i in op[1]]
     if k == "rics":
         return "F", rows[op[1]][S(op[2])]
     if k == "cm":
@@ -157,6 +161,10 @@ def model_R(ctx, rows, op):
         for i in op[1]:
             rows[i] = _seti(rows[i], op[2], op[3])
         return "R", rows
+    if k == "as_pf":
+        for i, j in zip(op[1], op[2]):
+            rows[i] = _seti(rows[i], j, op[3])
+        return "R", rows
     if k == "as_cs":
         return "R", [_setsl(r, S(op[1]), ctx.rot(r[S(op[1])])) for r in rows]
     if k == "as_rs":
@@ -197,6 +205,10 @@ def real_R(ctx, a, rows, op):
         return a[np.array(op[1], dtype=int), op[2]]
     if k == "it":
         return a[op[1], op[2]]
+    if k == "pf":
+        return a[np.array(op[1], dtype=int), np.array(op[2], dtype=int)]
+    if k == "rebuild":
+        return bnp.as_encoded_array([a[i] for i in op[1]], ctx.enc)
     if k == "rics":
         return a[op[1], S(op[2])]
     if k == "cm":
@@ -252,6 +264,9 @@ def real_R(ctx, a, rows, op):
     if k == "as_fcol":
         a[np.array(op[1], dtype=int), op[2]] = val(op[3], op[4])
         return a
+    if k == "as_pf":
+        a[np.array(op[1], dtype=int), np.array(op[2], dtype=int)] = val(op[3], op[4])
+        return a
     if k == "as_cs":
         a[:, S(op[1])] = ctx.arr([ctx.rot(r[S(op[1])]) for r in rows], op[2])
         return a
@@ -296,6 +311,14 @@ def model_F(ctx, s, op):
             return "F", s + s[::-1]
         if v == "insert":
             return "F", s[:op[2]] + ctx.other_str() + s[op[2]:]
+    if k == "where":
+        return "F", "".join(c if m else d for c, d, m in zip(s, ctx.rot(s), op[1]))
+    if k == "zeros_like":
+        return "F", ctx.alph[0] * len(s)
+    if k == "sorted":
+        return "F", "".join(sorted(s, key=lambda c: ctx.codes[c]))
+    if k == "reshape":
+        return "M", [s[i * op[2]:(i + 1) * op[2]] for i in range(op[1])]
     if k == "split":
         seps = op[1] if isinstance(op[1], list) else [op[1]]
         out, cur = [], ""
@@ -356,6 +379,14 @@ def real_F(ctx, f, s, op):
             return np.append(f, ctx.arr(ctx.other_str()))
         if v == "insert":
             return np.insert(f, op[2], ctx.arr(ctx.other_str()))
+    if k == "where":
+        return np.where(np.array(op[1], dtype=bool), f, ctx.arr(ctx.rot(s)))
+    if k == "zeros_like":
+        return np.zeros_like(f)
+    if k == "sorted":
+        return f[np.argsort(f, kind="stable")]
+    if k == "reshape":
+        return f.reshape(op[1], op[2])
     if k == "split":
         from bionumpy.io.strops import split
         return split(f, op[1])
@@ -379,6 +410,132 @@ def real_F(ctx, f, s, op):
         f[f == op[1]] = op[2]
         return f
     raise KeyError(op)
+
+
+def model_M(ctx, rows, op):
+    """2-d EncodedArray = list of equally long strings"""
+    k = op[0]
+    if k == "mi":
+        return "F", rows[op[1]]
+    if k == "mc":
+        return "F", "".join(r[op[1]] for r in rows)
+    if k == "mit":
+        return "C", rows[op[1]][op[2]]
+    if k == "ms":
+        return "M", [r[S(op[2])] for r in rows[S(op[1])]]
+    if k == "mm":
+        return "M", [r for r, m in zip(rows, op[1]) if m]
+    if k == "mf":
+        return "M", [rows[i] for i in op[1]]
+    if k == "mravel":
+        return "F", "".join(rows)
+    if k == "mT":
+        return "M", ["".join(r[j] for r in rows) for j in range(len(rows[0]))]
+    if k == "copy":
+        return "M", list(rows)
+    if k == "mcat":
+        return "M", rows + rows
+    rows = list(rows)
+    if k == "as_mi":
+        rows[op[1]] = ctx.rot(rows[op[1]])
+        return "M", rows
+    if k == "as_mc":
+        return "M", [_seti(r, op[1], op[2]) for r in rows]
+    if k == "as_cm":
+        return "M", [r.replace(op[1], op[2]) for r in rows]
+    raise KeyError(op)
+
+
+def real_M(ctx, m, rows, op):
+    import numpy as np
+    k = op[0]
+    if k == "mi":
+        return m[op[1]]
+    if k == "mc":
+        return m[:, op[1]]
+    if k == "mit":
+        return m[op[1], op[2]]
+    if k == "ms":
+        return m[S(op[1]), S(op[2])]
+    if k == "mm":
+        return m[np.array(op[1], dtype=bool)]
+    if k == "mf":
+        return m[np.array(op[1], dtype=int)]
+    if k == "mravel":
+        return m.ravel()
+    if k == "mT":
+        return m.T
+    if k == "copy":
+        return m.copy()
+    if k == "mcat":
+        return np.concatenate([m, m])
+    if k == "as_mi":
+        v = ctx.rot(rows[op[1]])
+        m[op[1]] = v if op[2] == "str" else ctx.arr(v, op[2])
+        return m
+    if k == "as_mc":
+        m[:, op[1]] = op[2] if op[3] == "str" else ctx.arr(op[2])[0]
+        return m
+    if k == "as_cm":
+        m[m == op[1]] = op[2]
+        return m
+    raise KeyError(op)
+
+
+def observe_M(ctx, m, rows, op):
+    k = op[0]
+    if k == "iter":
+        return rows, [r.to_string() for r in m]
+    if k == "raw":
+        return [[ctx.codes[c] for c in r] for r in rows], m.raw().tolist()
+    if k == "len":
+        return len(rows), len(m)
+    if k in ("eq", "ne"):
+        exp = [[(c == op[1]) == (k == "eq") for c in r] for r in rows]
+        got = (m == op[1]) if k == "eq" else (m != op[1])
+        return exp, got.tolist()
+    if k == "eq_self":
+        o = ctx.arr("".join(mutate_rows(ctx, rows, "last")), op[1]).reshape(len(rows), -1)
+        return [[c == d for c, d in zip(r, q)] for r, q in zip(rows, mutate_rows(ctx, rows, "last"))], (m == o).tolist()
+    if k == "copy_indep":
+        c = m.copy()
+        ch = rows[0][0]
+        c[c == ch] = ctx.rot(ch)
+        return (rows, [r.replace(ch, ctx.rot(ch)) for r in rows]), ([r.to_string() for r in m], [r.to_string() for r in c])
+    raise KeyError(op)
+
+
+def gen_M(ctx, rows, level, writable=True, want_obs=True):
+    r, c = len(rows), (len(rows[0]) if rows else 0)
+    A = ctx.alph
+    core = level == "core"
+    T, O = [], []
+    flat = "".join(rows)
+    if r and c:
+        T += [["mi", i] for i in ([0] if core else range(-r, r))]
+        T += [["mc", j] for j in ([-1] if core else range(-c, c))]
+        T += [["mT"]]
+        if not core:
+            T += [["mit", i, j] for i in range(-r, r) for j in range(-c, c)]
+    T += [["ms", [None, None, -1], [None, None, -1]], ["ms", [1, None, None], [None, -1, None]], ["mravel"], ["copy"]]
+    if not core:
+        T += [["ms", a, b] for a in ([None, None, None], [None, None, 2], [-1, None, None], [r, None, None])
+              for b in ([None, None, None], [1, None, None], [None, None, -2], [None, 1, None], [c, None, None])]
+        T += [["mm", [i % 2 == 0 for i in range(r)]], ["mm", [False] * r], ["mf", []], ["mcat"]] + ([["mf", [r - 1, 0, 0]], ["mf", [-1]]] if r else [])
+    if writable and r and c:
+        T += [["as_mi", 0, "str"], ["as_cm", flat[0], ctx.rot(flat[0], 2)]]
+        if not core:
+            T += [["as_mi", i, h] for i in range(-r, r) for h in ("str", "same", "base")]
+            T += [["as_mc", j, A[1], h] for j in range(-c, c) for h in ("str", "enc0d")]
+    if not want_obs:
+        return T, O
+    O += [["iter"], ["raw"], ["len"]]
+    if flat:
+        absent = next((x for x in A if x not in flat), None)
+        O += [[k, x] for k in ("eq", "ne") for x in sorted(set(flat[:1] + flat[-1:])) + ([absent] if absent else [])]
+        O += [["eq_self", "same"]] + ([["eq_self", "base"]] if ctx.name != "base" else [])
+        O += [["copy_indep"]]
+    return T, O
 
 
 # observations -> (expected, got) both plain Python -----------------------------------------------------------------
@@ -483,6 +640,12 @@ def observe_F(ctx, f, s, op):
     if k == "streq":
         from bionumpy.io.strops import str_equal
         return s == op[1], bool(str_equal(f, op[1]))
+    if k == "bincount":
+        import numpy as np
+        cs = [ctx.codes[c] for c in s]
+        return [cs.count(v) for v in range(max(cs) + 1)] if cs else [], np.bincount(f).tolist()
+    if k == "hash":
+        return True, hash(f) == hash(s)
     if k == "copy_indep":
         c = f.copy()
         c[c == s[0]] = ctx.rot(s[0])
@@ -503,9 +666,9 @@ def observe_C(ctx, c, s, op):
     raise KeyError(op)
 
 
-OBS = {"R": observe_R, "F": observe_F, "C": observe_C}
+OBS = {"R": observe_R, "F": observe_F, "C": observe_C, "M": observe_M}
 OBS_NAMES = {"tolist", "iter", "fea", "raw", "len", "lengths", "eq", "ne", "eq_rows", "ne_rows", "eq_colrev", "streq",
-             "streq_rr", "sa", "copy_indep", "to_string", "str", "eq_str", "ne_str"}
+             "streq_rr", "sa", "copy_indep", "to_string", "str", "eq_str", "ne_str", "bincount", "hash", "eq_self"}
 
 
 def is_obs(kind, op):
@@ -590,6 +753,15 @@ def gen_R(ctx, rows, level, writable=True, want_obs=True):
         elif flat:
             i = next(i for i in range(n) if lens[i])
             T += [["it", i, 0], ["rics", i, [1, None, None]]]
+    ne = [i for i in range(n) if lens[i] >= 1]
+    if ne:
+        T += [["pf", ne, [lens[i] - 1 for i in ne]]]
+        if not core:
+            T += [["pf", ne[::-1], [-lens[i] for i in ne[::-1]]], ["pf", [ne[0]] * 2, [0, -1]], ["pf", [i - n for i in ne], [lens[i] // 2 for i in ne]]]
+    if n:
+        T += [["rebuild", list(range(n - 1, -1, -1))]]
+        if not core:
+            T += [["rebuild", list(range(n))], ["rebuild", [0, 0]], ["rebuild", [-1]]]
     T += [["cm", present]] + ([["cm", absent]] if absent and not core else [])
     T += [["copy"], ["ravel"], ["touch"]]
     T += [["cat", "self"], ["cat", "other_front"]]
@@ -626,6 +798,8 @@ def gen_R(ctx, rows, level, writable=True, want_obs=True):
                 T += [["as_fcol", ne, -1, A[1], "str"]]
                 if not core:
                     T += [["as_fcol", ne, 0, A[1], "enc"]]
+        if ne and not core:
+            T += [["as_pf", ne, [lens[i] - 1 for i in ne], A[1], "str"], ["as_pf", ne[::-1], [-lens[i] for i in ne[::-1]], A[1], "enc"]]
         T += [["as_cs", [None, -1, None], "same"]]
         if not core:
             T += [["as_cs", s, "same"] for s in ([1, None, None], [None, None, None], [None, 1, None], [-1, None, None], [None, None, -1],
@@ -685,6 +859,14 @@ def gen_F(ctx, s, level, writable=True, want_obs=True):
             T += [["cm", absent]]
     sep = "," if ctx.name == "base" else A[-1]
     T += [["split", present]]
+    if L:
+        fact = [(r, L // r) for r in range(1, L + 1) if L % r == 0]
+        T += [["reshape", r, c] for r, c in (fact if not core else fact[len(fact) // 2:len(fact) // 2 + 1])]
+        T += [["where", [i % 2 == 0 for i in range(L)]]]
+    if not core:
+        T += [["sorted"]] + ([["zeros_like"]] if ctx.name != "base" else [])
+        if L:
+            T += [["where", [False] * L], ["where", [i % 3 == 1 for i in range(L)]]]
     if not core:
         T += [["split", c] for c in sorted(set(s[-1:] + s[1:2] + (absent or present) + sep) - {present})]
         T += [["split", sorted(set(s[:1] + s[-1:])) + [sep]]]
@@ -709,6 +891,7 @@ def gen_F(ctx, s, level, writable=True, want_obs=True):
         O += [["ne_str", "last", "same"]]
         O += [["copy_indep"]]
     O += [["streq", x] for x in sorted({s, s[:-1], ctx.rot(s), s + present})]
+    O += [["bincount"], ["hash"]]
     return T, O
 
 
@@ -717,7 +900,8 @@ def gen_C(ctx, s):
 
 
 WRITE_OPS = ("as_",)
-GATHER = {"rm", "rf", "cm", "copy", "cat", "join", "rsl", "m", "f", "fci", "split"}
+GATHER = {"rm", "rf", "cm", "copy", "cat", "join", "rsl", "m", "f", "fci", "split", "pf", "rebuild", "where", "zeros_like", "sorted", "mm",
+          "mf", "mcat"}
 
 
 # ----------------------------------------------------------------------------------------------------------------
@@ -736,7 +920,7 @@ def classify(kind, op, value):
         name += ":negstep-nonneg-start-on-empty-row"
     if k == "rcs" and negstart_on_empty(op[2], value[S(op[1])]):
         name += ":negstep-nonneg-start-on-empty-row"
-    if k in ("as_row", "as_item", "as_col", "as_fcol", "as_i", "as_s", "as_cs", "as_rs", "as_rm", "as_rf"):
+    if k in ("as_row", "as_item", "as_col", "as_fcol", "as_pf", "as_mi", "as_mc", "as_i", "as_s", "as_cs", "as_rs", "as_rm", "as_rf"):
         name += ":" + str(op[-1])
     if k == "cat":
         name += ":" + op[1]
@@ -767,6 +951,12 @@ def check_value(ctx, kind, obj, value):
         if not isinstance(obj, EncodedRaggedArray):
             return "wrong-type", "expected EncodedRaggedArray, got %s" % type(obj).__name__
         got = obj.tolist()
+    elif kind == "M":
+        if not isinstance(obj, EncodedArray) or isinstance(obj, EncodedRaggedArray):
+            return "wrong-type", "expected EncodedArray, got %s" % type(obj).__name__
+        if obj.ndim != 2:
+            return "wrong-rank", "expected ndim 2, got shape %r" % (obj.shape,)
+        got = [r.to_string() for r in obj]
     else:
         if not isinstance(obj, EncodedArray) or isinstance(obj, EncodedRaggedArray):
             return "wrong-type", "expected EncodedArray, got %s" % type(obj).__name__
@@ -784,13 +974,28 @@ def check_value(ctx, kind, obj, value):
     return None
 
 
+MODEL = {"R": model_R, "F": model_F, "M": model_M}
+REAL = {"R": real_R, "F": real_F, "M": real_M}
+
+
 def run_program(col, ctx, kind, base, copy, prog, count=True):
     """execute one program from scratch, evaluating the contract after every step; -> True if everything held"""
     case = {"enc": ctx.name, "kind": kind, "base": base, "copy": copy, "prog": prog}
-    if count:
-        col.case(case, contract=(kind + "." + prog[-1][0]) if prog else kind + ".construct")
     value = base
     step = "%s.construct" % kind
+    try:
+        return _run_program(col, ctx, kind, base, copy, prog, case)
+    finally:
+        if count:
+            col.case(case, nontrivial=bool(base) and any(base), contract=_LAST_STEP[0].split(":")[0])
+
+
+_LAST_STEP = ["?"]
+
+
+def _run_program(col, ctx, kind, base, copy, prog, case):
+    value = base
+    step = _LAST_STEP[0] = "%s.construct" % kind
     try:
         obj = build_base(ctx, kind, base, copy)
         bad = check_value(ctx, kind, obj, value)
@@ -798,15 +1003,15 @@ def run_program(col, ctx, kind, base, copy, prog, count=True):
             col.fail(signature(step, bad[0]), case, "step 0 (as_encoded_array): " + bad[1])
             return False
         for si, op in enumerate(prog):
-            step = classify(kind, op, value)
+            step = _LAST_STEP[0] = classify(kind, op, value)
             if is_obs(kind, op):
                 exp, got = OBS[kind](ctx, obj, value, op)
                 if exp != got:
                     col.fail(signature(step, "wrong-result"), case, "step %d %r on %r: got %r expected %r" % (si + 1, op, value, got, exp))
                     return False
                 continue
-            nkind, nvalue = (model_R if kind == "R" else model_F)(ctx, value, op)
-            nobj = (real_R if kind == "R" else real_F)(ctx, obj, value, op)
+            nkind, nvalue = MODEL[kind](ctx, value, op)
+            nobj = REAL[kind](ctx, obj, value, op)
             bad = check_value(ctx, nkind, nobj, nvalue)
             if bad:
                 col.fail(signature(step, bad[0]), case, "step %d %r on %r: %s" % (si + 1, op, value, bad[1]))
@@ -837,6 +1042,8 @@ def enumerate_programs(ctx, kind, base, copy, depth, last_level, inner_level="co
             return gen_R(ctx, value, level, w, want_obs)
         if kind == "F":
             return gen_F(ctx, value, level, w, want_obs)
+        if kind == "M":
+            return gen_M(ctx, value, level, w, want_obs)
         return gen_C(ctx, value)
     base_kind = kind
 
@@ -848,7 +1055,7 @@ def enumerate_programs(ctx, kind, base, copy, depth, last_level, inner_level="co
             return
         T, _ = gen(kind, value, inner_level, prefix, False)
         for op in T:
-            nk, nv = (model_R if kind == "R" else model_F)(ctx, value, op)
+            nk, nv = MODEL[kind](ctx, value, op)
             if nk == "C" and d > 1:
                 # a 0-d value only has observations
                 if d == 2:
@@ -877,23 +1084,27 @@ ENCS_OTHER = ["acgtn", "rna", "amino", "bam", "cigar", "strand"]
 def plan(tier):
     """the enumeration as a list of phases: (label, encodings, kind, bases-as-shapes, copy flags, depth, last level, sample size)"""
     q = tier == "quick"
-    small = shapes(2, 3) if q else shapes(3, 3)
     P = []
     # depth 0/1 ------------------------------------------------------------------------------------------------------
     P.append(("d1-all-shapes", ["base"], "R", shapes(3, 3) if q else shapes(4, 3), [False], 1, "mid" if q else "full", None))
-    P.append(("d1-full", ENCS_MAIN if q else ["dna"], "R", sorted(set(REPR_SHAPES + small)) if q else shapes(3, 3), [False], 1, "full", None))
-    P.append(("d1-flat", ENCS_MAIN, "F", [(L,) for L in range(0, 5 if q else 6)], [False, True], 1, "full", None))
+    if q:
+        P.append(("d1-full", ["base"], "R", sorted(set(REPR_SHAPES + shapes(2, 2))), [False], 1, "full", None))
+        P.append(("d1-full", ["dna"], "R", REPR_SHAPES, [False], 1, "full", None))
+    else:
+        P.append(("d1-full", ["dna"], "R", shapes(3, 3), [False], 1, "full", None))
+    P.append(("d1-flat", ENCS_MAIN, "F", [(L,) for L in range(0, 5 if q else 7)], [False, True], 1, "full", None))
     P.append(("d1-other-encodings", ENCS_OTHER, "R", REPR_SHAPES, [False], 1, "core" if q else "mid", None))
-    P.append(("d1-other-encodings-flat", ENCS_OTHER, "F", [(0,), (1,), (3,)], [True], 1, "mid", None))
+    P.append(("d1-other-encodings-flat", ENCS_OTHER, "F", [(0,), (1,), (3,)] if q else [(0,), (1,), (3,), (4,)], [True], 1, "mid", None))
     # depth 2 --------------------------------------------------------------------------------------------------------
-    P.append(("d2", ["base"], "R", REPR_SHAPES if q else shapes(3, 2), [False], 2, "core" if q else "mid", None))
-    P.append(("d2", ["dna"], "R", [(0, 2), (3, 1), (2, 0, 3), (0, 0), (1, 0, 0, 2)] if q else REPR_SHAPES, [False], 2, "core" if q else "mid", None))
-    P.append(("d2-flat", ENCS_MAIN, "F", [(L,) for L in range(0, 4)], [True], 2, "core" if q else "mid", None))
-    P.append(("d2-other-encodings", ENCS_OTHER, "R", [(2, 0, 3)] if q else [(2, 0, 3), (0, 2), (3, 1)], [False], 2, "core", 400 if q else None))
-    P.append(("d2-other-encodings-flat", ENCS_OTHER, "F", [(3,)], [True], 2, "core", 150 if q else None))
+    P.append(("d2", ["base"], "R", [(), (0,), (2,), (0, 0), (3, 1), (0, 2), (2, 0, 3), (1, 1, 1)] if q else shapes(3, 2) + [(1, 0, 0, 2), (3, 3, 3)],
+              [False], 2, "core" if q else "mid", None))
+    P.append(("d2", ["dna"], "R", [(0, 2), (2, 0, 3), (1, 0, 0, 2)] if q else REPR_SHAPES, [False], 2, "core" if q else "mid", None))
+    P.append(("d2-flat", ENCS_MAIN, "F", [(L,) for L in range(0, 5 if q else 7)], [True], 2, "core" if q else "mid", None))
+    P.append(("d2-other-encodings", ENCS_OTHER, "R", [(2, 0, 3)] if q else [(2, 0, 3), (0, 2), (3, 1)], [False], 2, "core", 300 if q else None))
+    P.append(("d2-other-encodings-flat", ENCS_OTHER, "F", [(4,)], [True], 2, "core", 150 if q else None))
     # depth 3 (sampled with the seed: the space of CORE x CORE x (CORE + observations) is ~65 000 programs per shape) ----
-    P.append(("d3", ENCS_MAIN, "R", REPR_SHAPES, [False], 3, "core", 300 if q else 9000))
-    P.append(("d3-flat", ENCS_MAIN, "F", [(0,), (2,), (3,)], [True], 3, "core", 300 if q else 4000))
+    P.append(("d3", ENCS_MAIN, "R", REPR_SHAPES, [False], 3, "core", 200 if q else 9000))
+    P.append(("d3-flat", ENCS_MAIN, "F", [(0,), (2,), (4,)], [True], 3, "core", 200 if q else 4000))
     return P
 
 
@@ -908,7 +1119,7 @@ def run(tier="quick", seed=0):
                     "distinct = distinct (encoding, base, program)")
     P = plan(tier)
     col.bounds = {"encodings": ENCS_MAIN + ENCS_OTHER, "program_len": "0..3", "rows": "0..3 (quick), 0..4 (thorough)", "row_len": "0..3",
-                  "flat_len": "0..4 (quick), 0..5 (thorough)",
+                  "flat_len": "0..4 (quick), 0..6 (thorough)", "matrix": "every r x c = flat_len reshaping (depth >= 2)",
                   "phases": [{"phase": p[0], "encodings": p[1], "kind": p[2], "n_bases": len(p[3]), "depth": p[5], "last_op_set": p[6],
                               "sample_per_base": p[7]} for p in P]}
     ctxs = {n: Ctx(n) for n in ENCS_MAIN + ENCS_OTHER}
